@@ -39,6 +39,7 @@ static int g_fdwr[MAXFD];
 static long g_fault_at = -1;       /* the k-th (0-based) faultable call fails */
 static int g_fault_errno = 28;     /* ENOSPC */
 static int g_fault_persistent = 0;
+static int g_short_fd = -1;
 static int g_fault_partial = 0;    /* a failing write first writes half of the bytes */
 static long g_fault_count = 0;     /* faultable calls seen so far */
 static long g_fault_fired = 0;
@@ -134,14 +135,27 @@ int open64(const char *path, int flags, ...) {
 ssize_t write(int fd, const void *buf, size_t n) {
   ssize_t r; int fe;
   if (fd >= 0 && fd < MAXFD && g_fdname[fd][0] && g_journal) {
+    if (g_short_fd == fd && g_fault_partial == 2) {
+      /* second half of a "short write, then error" fault: the retry of the remainder fails */
+      int idx; g_short_fd = -1; g_fault_fired++;
+      idx = jadd(J_FAIL, g_fdname[fd], "write", NULL, 0, 0);
+      pthread_mutex_lock(&g_jm); J[idx].tag = g_fault_errno; pthread_mutex_unlock(&g_jm);
+      errno = g_fault_errno; return -1;
+    }
     if ((fe = fault_check("write", g_fdname[fd])) != 0) {
+      if (g_fault_partial == 2 && n > 1 && !g_fault_persistent) {
+        /* what a filling disk does: this call transfers part of the data and reports the short count;
+           the caller's retry of the rest gets the error */
+        r = syscall(SYS_write, fd, buf, n / 2);
+        if (r > 0) { jadd(J_WRITE, g_fdname[fd], NULL, buf, r, 0); g_short_fd = fd; g_fault_fired--; return r; }
+      }
       if (g_fault_partial && n > 1) {
         r = syscall(SYS_write, fd, buf, n / 2);
         if (r > 0) jadd(J_WRITE, g_fdname[fd], NULL, buf, r, 0);
       }
       errno = fe; return -1;
     }
-    if (g_slow_tables && strstr(g_fdname[fd], ".ldb") != NULL) { struct timespec ts; ts.tv_sec = 0; ts.tv_nsec = 1000000; syscall(SYS_nanosleep, &ts, NULL); }
+    if (g_slow_tables == 1 && strstr(g_fdname[fd], ".ldb") != NULL) { struct timespec ts; ts.tv_sec = 0; ts.tv_nsec = 1000000; syscall(SYS_nanosleep, &ts, NULL); }
     r = syscall(SYS_write, fd, buf, n);
     if (r > 0) jadd(J_WRITE, g_fdname[fd], NULL, buf, r, 0);
     return r;
@@ -153,6 +167,9 @@ static int do_sync(int fd) {
   int fe;
   if (fd >= 0 && fd < MAXFD && g_fdname[fd][0] && g_journal) {
     if ((fe = fault_check("sync", g_fdname[fd])) != 0) { errno = fe; return -1; }
+    /* nowait mode: hold the background thread inside ldb_versions_apply (mutex released) long enough for the
+       foreground writer to fill the write buffer and switch logs meanwhile */
+    if (g_slow_tables && !strncmp(g_fdname[fd], "MANIFEST", 8)) { struct timespec ts; ts.tv_sec = 0; ts.tv_nsec = 6000000; syscall(SYS_nanosleep, &ts, NULL); }
     { int r = syscall(SYS_fsync, fd); if (r == 0) jadd(g_fdname[fd][0] == '.' ? J_SYNCDIR : J_SYNC, g_fdname[fd], NULL, NULL, 0, 0); return r; }
   }
   return syscall(SYS_fsync, fd);
